@@ -229,7 +229,14 @@ impl GearSets {
 
         let header = DatHeader::read(&mut cursor).ok()?;
 
-        let mut buffer = vec![0; header.content_size as usize - 1];
+        // content_size comes from the file: it can be zero, or larger than what is actually there
+        let content_size = (header.content_size as usize).checked_sub(1)?;
+        let remaining = buffer.len().saturating_sub(cursor.position() as usize);
+        if content_size > remaining {
+            return None;
+        }
+
+        let mut buffer = vec![0; content_size];
         cursor.read_exact(&mut buffer).ok()?;
 
         let decoded = buffer.iter().map(|x| *x ^ GEARSET_KEY).collect::<Vec<_>>();
